@@ -7,7 +7,7 @@ import sockcheck
 
 LEAN_MODULES = ["PyAirtouch.Props.C02", "PyAirtouch.Props.C02At4", "PyAirtouch.Props.C02At5"]
 LEVEL = "proof"
-MONITORS = ["c02a", "c02b", "c02c", "c01a", "c01d"]
+MONITORS = ["c02a", "c02b", "c02c", "c02d", "c01a", "c01d"]
 
 
 def _boundary_cases():
@@ -50,6 +50,13 @@ def _boundary_cases():
         for turns in (0, 1):
             out.append(("faults", [("net", "accept"), ("open",), ("adv", 8), ("turn", 3), ("peer", what), ("turn", turns),
                                    ("send", 1, "ok", "idem"), ("adv", 3), ("heal",)]))
+    # one write fault, and further commands sent by other tasks while the client is still busy resetting that connection: the
+    # failed command's retries must not be used up on the connection that is already known to be lost
+    for kind in (0, 1, 2):
+        for k in range(0, 5):
+            for extra in (1, 2, 3):
+                out.append(("faults", [("net", "accept"), ("open",), ("adv", 8), ("turn", 3), ("failw", 1, kind), ("send", 1, "ok", "idem"), ("turn", k)]
+                            + [("send", 2 + i, "ok", "idem") for i in range(extra)] + [("adv", 3), ("heal",)]))
     # peer reset while a drain is blocked, entry with / without retries
     for pol in ("idem", "nonidem"):
         out.append(("faults", [("net", "accept"), ("open",), ("adv", 8), ("block", 1), ("send", 1, "ok", pol), ("turn", 2),
